@@ -8,10 +8,15 @@ What is proved here (for all inputs, on the hand-written models that the harness
   (`chna_entry_roundtrip`);
 * ID generation (`ids_injective`, `ids_wellformed`, `ids_not_reserved`, `ids_disjoint_from_common`).
 
-What is NOT proved (hence `C08_partial`): the XML layer — the declarative combinators
-(`Attribute`/`AttrElement`/`ListElement`/`ElementParser`), the ~40 hand-written element handlers
-(positions, gain, zones, frequency, screen, matrix, interaction ranges, position offsets…), `{:.5f}` float
-printing and lxml.  Those are covered by the document-level search in `harness/c08.py` only.
+* the XML layer on an abstract tree: the declarative combinators (`Proofs/C08Codec.lean`), every hand-written
+  handler pair of `xml.py` modelled exactly (`Proofs/C08Custom.lean`), and class-level round trips for every element
+  class of both versions (`Proofs/C08Blocks.lean`, `C08Nested.lean`, `C08Blocks2.lean`, `C08Elements.lean`), tied to
+  the regenerated handler tables by `Proofs/C08Tables.lean`; `C08_roundtrip_model` is the document-level statement.
+
+What is NOT proved (hence the summary is still `C08_partial`): `{:.5f}` printing / `float()` of arbitrary doubles
+(values are on the 1e-5 grid), lxml parsing and serialisation (the tree is abstract), reference resolution and
+duplicate-id rejection in `adm.py`, `populate_chna_chunk` / `load_chna_chunk`, the AudioStreamFormatWrapper
+bookkeeping.  Those are covered by the document-level search in `harness/c08.py` only.
 -/
 import Earverif.Proofs.C08TimeRat
 import Earverif.Proofs.C08Ids
@@ -20,6 +25,7 @@ import Earverif.Gen.C08_Handlers
 import Earverif.Proofs.C08Leaf
 import Earverif.Proofs.C08Custom
 import Earverif.Proofs.C08Blocks
+import Earverif.Proofs.C08Tables
 
 namespace Earverif.C08
 open Earverif.Digits Earverif.TimeFormat Earverif.GenIds
@@ -714,13 +720,114 @@ theorem timeCodec_roundtrip_frac (n d : ℕ) (hd : 0 < d) (h : n < 360000 * d) :
 
 end Tables
 
+/-! ## The XML layer, document level -/
+
+section Document
+open Earverif.XmlCodec Earverif.XmlBlocks Earverif.XmlElements
+
+/-- an object comes back from the element written for it, and a second generation gives the same tree -/
+def RoundTrips (ps : List (Property XV)) (cd : Obj XV) (name : String) (o : Obj XV) : Prop :=
+  parse ps cd (toXml ps name o) = some o ∧
+  (parse ps cd (toXml ps name o)).map (toXml ps name) = some (toXml ps name o)
+
+/-- every element of the document is inside the stated domain of its class -/
+structure DocValid (v2 : Bool) (d : Document) : Prop where
+  programmes : ∀ p ∈ d.programmes, ProgrammeValid v2 p
+  contents : ∀ c ∈ d.contents, ContentValid v2 c
+  objects : ∀ o ∈ d.objects, ObjectValid v2 o
+  channelFormats : ∀ c ∈ d.channelFormats, ChannelValid v2 c
+  trackUIDs : ∀ u ∈ d.trackUIDs, TrackUIDValid v2 u
+
+/-- **C08 on the model, document level.**  For BS.2076-1 (`v2 = false`) and BS.2076-2 (`v2 = true`): every main
+element of a `DocValid` document — audioProgramme (reference screen, loudness metadata), audioContent, audioObject
+(position offset, alternative value sets, interaction ranges), audioPackFormat, audioChannelFormat (block formats of
+all five types incl. Matrix coefficients, frequency), audioStreamFormat, audioTrackFormat, audioTrackUID — is parsed
+back as itself by the parser that the REGENERATED handler table declares for its class (hand-written handlers chosen
+by name, `implX`), and generating XML again from the parsed element reproduces the same tree. -/
+theorem C08_roundtrip_model (v2 : Bool) (d : Document) (hv : DocValid v2 d) :
+    (∀ p ∈ d.programmes, RoundTrips (propsX v2 (rowsOf v2 "audioProgramme")) programmeDefaults "audioProgramme" p.toObj) ∧
+    (∀ c ∈ d.contents, RoundTrips (propsX v2 (rowsOf v2 "audioContent")) contentDefaults "audioContent" c.toObj) ∧
+    (∀ o ∈ d.objects, RoundTrips (propsX v2 (rowsOf v2 "audioObject")) objectDefaults "audioObject" o.toObj) ∧
+    (∀ p ∈ d.packFormats, RoundTrips (propsX v2 (rowsOf v2 "audioPackFormat")) packDefaults "audioPackFormat" p.toObj) ∧
+    (∀ c ∈ d.channelFormats,
+      RoundTrips (propsX v2 (rowsOf v2 "audioChannelFormat")) channelDefaults "audioChannelFormat" c.toObj) ∧
+    (∀ s ∈ d.streamFormats,
+      RoundTrips (propsX v2 (rowsOf v2 "audioStreamFormat")) streamDefaults "audioStreamFormat" s.toObj) ∧
+    (∀ t ∈ d.trackFormats, RoundTrips (propsX v2 (rowsOf v2 "audioTrackFormat")) noneDefaults "audioTrackFormat" t.toObj) ∧
+    (∀ u ∈ d.trackUIDs, RoundTrips (propsX v2 (rowsOf v2 "audioTrackUID")) noneDefaults "audioTrackUID" u.toObj) := by
+  rw [programmeProps_eq, contentProps_eq, objectProps_eq, packProps_eq, channelProps_eq, streamProps_eq, trackProps_eq,
+    trackUIDProps_eq]
+  exact ⟨fun p hp => programme_roundtrip v2 _ p (hv.programmes p hp),
+    fun c hc => content_roundtrip v2 _ c (hv.contents c hc),
+    fun o ho => object_roundtrip v2 _ o (hv.objects o ho),
+    fun p _ => packFormat_roundtrip _ p,
+    fun c hc => channelFormat_roundtrip v2 _ c (hv.channelFormats c hc),
+    fun s _ => streamFormat_roundtrip _ s,
+    fun t _ => trackFormat_roundtrip _ t,
+    fun u hu => trackUID_roundtrip v2 _ u (hv.trackUIDs u hu)⟩
+
+/-- the nested element classes, in table form: block formats of the four remaining types, the Matrix coefficient,
+loudnessMetadata, audioObjectInteraction, alternativeValueSet, the reference screen -/
+theorem C08_nested_roundtrip (v2 : Bool) (name : String) :
+    (∀ b, DSValid v2 b → RoundTrips (propsX v2 (rowsOf v2 "audioBlockFormat:DirectSpeakers")) dsDefaults name b.toObj) ∧
+    (∀ b, HoaValid v2 b → RoundTrips (propsX v2 (rowsOf v2 "audioBlockFormat:HOA")) blockDefaults name b.toObj) ∧
+    (∀ b, BinauralValid v2 b →
+      RoundTrips (propsX v2 (rowsOf v2 "audioBlockFormat:Binaural")) blockDefaults name b.toObj) ∧
+    (∀ b, MatrixValid v2 b → RoundTrips (propsX v2 (rowsOf v2 "audioBlockFormat:Matrix")) matrixDefaults name b.toObj) ∧
+    (∀ b, Earverif.XmlBlocks.Valid v2 b →
+      RoundTrips (propsX v2 (rowsOf v2 "audioBlockFormat:Objects")) objectsDefaults name b.toObj) ∧
+    (∀ c : Coefficient, RoundTrips (propsX v2 (rowsOf v2 "coefficient")) noneDefaults name c.toObj) ∧
+    (∀ l : Loudness, RoundTrips (propsX v2 (rowsOf v2 "loudnessMetadata")) noneDefaults name l.toObj) ∧
+    (∀ i, InteractionValid i → RoundTrips (propsX v2 (rowsOf v2 "audioObjectInteraction")) noneDefaults name i.toObj) ∧
+    (∀ a, AVSValid a → RoundTrips (propsX v2 (rowsOf v2 "alternativeValueSet")) noneDefaults name a.toObj) ∧
+    (∀ s : Screen, s.centrePosition.inRange →
+      RoundTrips (propsX v2 ((Earverif.Gen.C08.parsers.lookup "audioProgrammeReferenceScreen").getD [])) noneDefaults name
+        s.toObj) := by
+  rw [dsProps_eq, hoaProps_eq, binauralProps_eq, matrixProps_eq, objectsXProps_eq, coeffProps_eq, loudnessProps_eq,
+    interactionProps_eq, avsProps_eq, screenProps_eq]
+  refine ⟨fun b hb => directSpeakersBlock_roundtrip v2 _ b hb, fun b hb => hoaBlock_roundtrip v2 _ b hb,
+    fun b hb => binauralBlock_roundtrip v2 _ b hb, fun b hb => matrixBlock_roundtrip v2 _ b hb, ?_,
+    fun c => coeff_roundtrip v2 _ c, fun l => loudness_roundtrip _ l, fun i hi => interaction_roundtrip v2 _ i hi,
+    fun a ha => avs_roundtrip v2 _ a ha, fun s hs => screen_roundtrip _ s hs⟩
+  intro b hb
+  have := objectsBlock_roundtrip v2 name b hb
+  rw [objectsProps_eq] at this
+  exact this
+
+/-- non-vacuity of `DocValid`: a BS.2076-2 document with one element of each kind -/
+example : DocValid true
+    { programmes := [⟨"APR_1001", "p", none, none, none, none, ["ACO_1001"], defaultScreen, [], []⟩],
+      contents := [⟨"ACO_1001", "c", none, none, ["AO_1001"], [], []⟩],
+      objects := [⟨"AO_1001", "o", none, none, none, none, none, none, ["AP_00051001"], [], [], [some "ATU_00000001"],
+        50000, false, none, [], none⟩],
+      packFormats := [⟨"AP_00051001", "pk", .binaural, none, ["AC_00051001"], [], none, [], none, none, none, none, none⟩],
+      channelFormats := [⟨"AC_00051001", "ch", .binaural, [.binaural ⟨"AB_00051001_00000001", none, none, 100000, 10⟩],
+        ⟨none, none⟩⟩],
+      streamFormats := [], trackFormats := [],
+      trackUIDs := [⟨"ATU_00000001", some 48000, some 24, none, some "AC_00051001", some "AP_00051001"⟩] } := by
+  refine ⟨?_, ?_, ?_, ?_, ?_⟩
+  · intro p hp; simp at hp; subst hp
+    exact ⟨fun _ h => by simp at h, fun _ h => by simp at h, by simp [defaultScreen, Earverif.XmlCustom.CentrePosition.inRange],
+      fun h => by simp at h⟩
+  · intro c hc; simp at hc; subst hc; exact ⟨fun h => by simp at h⟩
+  · intro o ho; simp at ho; subst ho
+    exact ⟨fun _ h => by simp at h, fun _ h => by simp at h, fun s h => by simp at h; subst h; decide,
+      fun q h => by simp at h, fun a h => by simp at h, fun i h => by simp at h, fun h => by simp at h⟩
+  · intro c hc; simp at hc; subst hc
+    exact ⟨by simp, fun b h => by simp at h; subst h; rfl, fun b h => by
+      simp at h; subst h
+      exact ⟨fun _ h => by simp at h, fun _ h => by simp at h, fun h => by simp at h⟩⟩
+  · intro u hu; simp at hu; subst hu; exact fun h => by simp at h
+
+end Document
+
 /-! ## Summary -/
 
-/-- **C08, partial.**  The conjunction of the leaf and ID claims above and the class-level round trip of the
-Objects block format.  Missing for the full property: the class-level theorems for the other element classes
-(their declarative parts are covered by `handlers_codec_roundtrip`, their hand-written handlers are parameters
-or — DirectSpeakers position, frequency — proved separately), five-decimal printing of arbitrary doubles, lxml
-and reference resolution; those are covered only by the generated-document search of the harness. -/
+/-- **C08, partial.**  The conjunction of the leaf and ID claims above and the class-level round trips of the XML
+layer for both versions (document level, `C08_roundtrip_model`).  Still missing for the full property, and covered
+only by the generated-document search of the harness: five-decimal printing / reading of arbitrary doubles (values are
+on the 1e-5 grid), lxml (the tree is abstract: no byte level), reference resolution and duplicate-id rejection in
+`adm.py`, the transfer between audioTrackUIDs and CHNA rows (`chna.py`; the 40-byte row itself is proved). -/
 theorem C08_partial :
     (∀ (q : ℚ), 0 ≤ q → q < 360000 → ExactDecimal q → ∀ af, ∃ s, unparseTime af (.dec q) = .ok s ∧
         parseTime s = some (.dec q) ∧ parseTimeV1 s = some (.dec q)) ∧
@@ -734,11 +841,33 @@ theorem C08_partial :
         Earverif.XmlCodec.parse (Earverif.XmlBlocks.objectsProps (Earverif.XmlBlocks.objectsRows v2))
           Earverif.XmlBlocks.objectsDefaults
           (Earverif.XmlCodec.toXml (Earverif.XmlBlocks.objectsProps (Earverif.XmlBlocks.objectsRows v2)) name b.toObj)
-          = some b.toObj) :=
+          = some b.toObj) ∧
+    -- the XML layer, document level: every main element of a valid document, both versions
+    (∀ (v2 : Bool) (d : Earverif.XmlElements.Document), DocValid v2 d →
+      (∀ p ∈ d.programmes, RoundTrips (Earverif.XmlElements.propsX v2 (Earverif.XmlElements.rowsOf v2 "audioProgramme"))
+        Earverif.XmlElements.programmeDefaults "audioProgramme" p.toObj) ∧
+      (∀ c ∈ d.contents, RoundTrips (Earverif.XmlElements.propsX v2 (Earverif.XmlElements.rowsOf v2 "audioContent"))
+        Earverif.XmlElements.contentDefaults "audioContent" c.toObj) ∧
+      (∀ o ∈ d.objects, RoundTrips (Earverif.XmlElements.propsX v2 (Earverif.XmlElements.rowsOf v2 "audioObject"))
+        Earverif.XmlElements.objectDefaults "audioObject" o.toObj) ∧
+      (∀ p ∈ d.packFormats, RoundTrips (Earverif.XmlElements.propsX v2 (Earverif.XmlElements.rowsOf v2 "audioPackFormat"))
+        Earverif.XmlElements.packDefaults "audioPackFormat" p.toObj) ∧
+      (∀ c ∈ d.channelFormats,
+        RoundTrips (Earverif.XmlElements.propsX v2 (Earverif.XmlElements.rowsOf v2 "audioChannelFormat"))
+          Earverif.XmlElements.channelDefaults "audioChannelFormat" c.toObj) ∧
+      (∀ s ∈ d.streamFormats,
+        RoundTrips (Earverif.XmlElements.propsX v2 (Earverif.XmlElements.rowsOf v2 "audioStreamFormat"))
+          Earverif.XmlElements.streamDefaults "audioStreamFormat" s.toObj) ∧
+      (∀ t ∈ d.trackFormats,
+        RoundTrips (Earverif.XmlElements.propsX v2 (Earverif.XmlElements.rowsOf v2 "audioTrackFormat"))
+          Earverif.XmlBlocks.noneDefaults "audioTrackFormat" t.toObj) ∧
+      (∀ u ∈ d.trackUIDs, RoundTrips (Earverif.XmlElements.propsX v2 (Earverif.XmlElements.rowsOf v2 "audioTrackUID"))
+        Earverif.XmlBlocks.noneDefaults "audioTrackUID" u.toObj)) :=
   ⟨time_roundtrip_decimal, time_roundtrip_fractional,
     fun x o h ht => ⟨(ids_injective x o h ht).2.2.1, (ids_injective x o h ht).2.2.2.2.2.2.2.2.2,
       ids_not_reserved x o h⟩,
     chna_entry_roundtrip,
-    fun v2 name b hv => (Earverif.XmlBlocks.objectsBlock_roundtrip v2 name b hv).1⟩
+    fun v2 name b hv => (Earverif.XmlBlocks.objectsBlock_roundtrip v2 name b hv).1,
+    C08_roundtrip_model⟩
 
 end Earverif.C08
